@@ -80,6 +80,10 @@ pub fn check(e: &Exec) -> Verdict {
     let faulty = !e.case.faults.is_empty();
 
     match &e.obs {
+        Err(msgs) if msgs.iter().any(|m| m.contains("@ tabs/") || m.contains("@ vh/src") || m.contains("@ core/src")) && e.injected == 0 => {
+            // a panic raised by the harness itself decides nothing
+            inc.push(format!("harness panic: {}", short(msgs)));
+        }
         Err(msgs) => {
             if !faulty || e.injected == 0 {
                 // a panic nobody injected
@@ -131,8 +135,9 @@ pub fn check(e: &Exec) -> Verdict {
             ),
         ));
     }
+    // the thread bound holds on panicking runs too (a replacement for a dead worker is one thread too many)
+    check_threads(e, &mut out);
     if !faulty {
-        check_threads(e, &mut out);
         check_short_circuit(e, &mut out, &mut inc);
         check_exact_chunks(e, &mut out);
     }
@@ -776,11 +781,12 @@ fn check_exact_chunks(e: &Exec, out: &mut Vec<Violation>) {
             return;
         }
     }
-    // aligned blocks are processed by one thread
+    // aligned blocks are processed by one thread (blocks are counted from the first position of the run)
+    let base = if c.src == Src::ConIterVec { c.pre_consumed as u64 } else { 0 };
     let owners = e.owners();
     let mut block_owner: HashMap<u64, usize> = HashMap::new();
     for (o, slot) in &owners {
-        let b = o / cs;
+        let b = o.saturating_sub(base) / cs;
         match block_owner.get(&b) {
             None => {
                 block_owner.insert(b, *slot);
@@ -797,7 +803,7 @@ fn check_exact_chunks(e: &Exec, out: &mut Vec<Violation>) {
         let mut first_seen: HashMap<u64, u64> = HashMap::new();
         for k in e.calls() {
             if k.stage == first {
-                first_seen.entry((k.id >> 12) / cs).or_insert(k.seq);
+                first_seen.entry(((k.id >> 12).saturating_sub(base)) / cs).or_insert(k.seq);
             }
         }
         let mut by_seq: Vec<(u64, u64)> = first_seen.iter().map(|(b, s)| (*s, *b)).collect();
